@@ -767,7 +767,17 @@ class Evaluator:
                         if e_ is not None:
                             e_.setdefault("extra_guards", []).append(("variant-is", val[3][1], nm))
                 else:
-                    self._log(frame, bi, si, kind="ret0", value=val)
+                    split = self._dispatch_join(frame, val)
+                    if split is None:
+                        self._log(frame, bi, si, kind="ret0", value=val)
+                    else:
+                        # `let r = match kind { A => f(), B => g() }; ..; return h(r)`: one return per call that can have produced r
+                        ph, jb = split
+                        for alt, origin in zip(ph[3], ph[4]):
+                            v2 = _subst(val, ph, alt)
+                            e_ = self._log(frame, bi, si, kind="ret0", value=self._resimplify(v2))
+                            e_.setdefault("extra_edges", []).append((origin, jb))
+                            e_["subst"] = (ph, alt)
             return
         # find the deepest deref
         last_deref = -1
@@ -1048,6 +1058,29 @@ class Evaluator:
             if t["ret"] is not None:
                 live.add((bi, t["ret"]))
         return {e for e in live if not body.blocks[e[1]]["cleanup"]}
+
+    def _dispatch_join(self, frame, val):
+        """an own-frame join, inside `val`, of the results of different calls (a merged dispatch): (phi, join block) or None"""
+        own = "%s@" % frame.body.name
+        hit = []
+
+        def grab(x):
+            if (not hit and tag(x) == "phi" and len(x) > 4 and x[4] and all(o is not None for o in x[4]) and len(x[1]) == len(frame.chain) + 1
+                    and str(x[1][-1]).startswith(own) and len(x[3]) >= 2 and all(tag(a) == "call" and len(a) > 3 for a in x[3])
+                    and len(set(a[1] for a in x[3])) == len(x[3])):
+                hit.append(x)
+            return None
+        _walk_terms(val, grab)
+        if not hit:
+            return None
+        try:
+            return hit[0], int(str(hit[0][1][-1]).split("@")[-1])
+        except ValueError:
+            return None
+
+    def _resimplify(self, v):
+        """payload(call, ..) terms made by substitution keep their form; nothing to fold today"""
+        return v
 
     def _log(self, frame, bi, si, **kw):
         e = Entry(kw)
@@ -1777,6 +1810,35 @@ def _join_ver(a, b, j, diff=()):
     av = a[0] if a[0] == b[0] and not any(tag(k[0]) != "param" for k in diff) else j
     pv = a[1] if a[1] == b[1] and not any(tag(k[0]) == "param" for k in diff) else j
     return (av, pv)
+
+
+def _walk_terms(t, f, depth=0):
+    if depth > 40:
+        return
+    if isinstance(t, Lin):
+        for a in t.m:
+            _walk_terms(a, f, depth + 1)
+        return
+    if isinstance(t, tuple):
+        f(t)
+        for x in t:
+            if isinstance(x, (tuple, Lin)):
+                _walk_terms(x, f, depth + 1)
+
+
+def _subst(t, old, new, depth=0):
+    if t == old:
+        return new
+    if depth > 40:
+        return t
+    if isinstance(t, Lin):
+        out = const(t.c)
+        for a, c in t.m.items():
+            out = add(out, scale(_subst(a, old, new, depth + 1), c))
+        return out
+    if isinstance(t, tuple):
+        return tuple(_subst(x, old, new, depth + 1) if isinstance(x, (tuple, Lin)) else x for x in t)
+    return t
 
 
 def frame_site(chain, body, bi):
